@@ -233,7 +233,15 @@ func (d *DeadlineChan[T]) SetDeadline(t time.Time) error {
 		return io.EOF
 	}
 	verifhook.At("common.DeadlineChan.SetDeadline.afterClosedCheck")
-	return d.deadline.SetDeadline(t)
+	err := d.deadline.SetDeadline(t)
+
+	// Setting a deadline un-expires it. If Close ran in the meantime, that
+	// has undone the cancellation Close releases pending calls with: redo it.
+	if d.closed.Load() {
+		d.deadline.Cancel(io.EOF)
+		return io.EOF
+	}
+	return err
 }
 
 // Cancel cancels pending calls to Send and Recv and causes them to return err
